@@ -65,7 +65,7 @@ fn scan_graph<D: ByteDev>(out: &mut Out) {
 fn frame_graph(out: &mut Out) {
     chunk("ps2-graph");
     let sys = FrameSys::new();
-    let g = bfs(&sys, true, 100_000);
+    let g = bfs(&sys, true, 600_000);
     let mut panics = 0;
     for s in 0..g.expanded {
         for (ai, o) in g.outs[s].iter().enumerate() {
@@ -96,6 +96,41 @@ fn frame_graph(out: &mut Out) {
     out.nontrivial += 65536;
     out.parts.push(("sweep:Ps2Decoder::add_word all u16".into(), json!({"words": 65536, "panics": panics})));
 }
+/// hook-free panic hunts: every 2-frame bit stream and every 3-byte scancode stream with each call guarded
+fn stream_hunts(out: &mut Out) {
+    chunk("ps2-bit-streams 22 bits (guarded)");
+    let mut n = 0;
+    let mut panics = 0;
+    for ((c, bads), _) in crate::props::frame::bit_tree(22, true) {
+        n += c;
+        for (path, _want, got) in bads {
+            if got == "PANIC" {
+                panics += 1;
+                let ops: Vec<Op> = path.iter().map(|b| Op::Bit(*b)).collect();
+                let bits: String = path.iter().map(|b| if *b { '1' } else { '0' }).collect();
+                viol(out, &format!("ps2/panic/bits:{}", bits), &format!("Ps2Decoder::add_bit panics at the last bit of the stream {} (arrival order)", bits), "ps2", ops, "PANIC");
+            }
+        }
+    }
+    out.evaluations += n;
+    out.nontrivial += n;
+    out.parts.push(("tree:Ps2Decoder bit streams (guarded)".into(), json!({"bits_per_stream": 22, "bit_positions": n, "panicking_streams_recorded": panics})));
+    fn hunt<D: ByteDev>(out: &mut Out) {
+        chunk(&format!("scancode-streams 3 bytes (guarded) {}", D::component()));
+        let (n, bads) = crate::props::scan::panic_streams::<D>(3);
+        for (path, p) in &bads {
+            let ops: Vec<Op> = path.iter().map(|b| Op::Byte(*b)).collect();
+            let hexs: Vec<String> = ops.iter().map(|o| o.text()).collect();
+            viol(out, &format!("{}/panic/{}", D::component(), hexs.join(",")), &format!("{}: byte stream {:?} panics: {}", D::component(), hexs, p), &D::component(), ops, p);
+        }
+        out.evaluations += n;
+        out.nontrivial += n;
+        out.parts.push((format!("tree:{} byte streams (guarded)", D::component()), json!({"max_stream_length": 3, "stream_positions": n, "panicking_streams_recorded": bads.len()})));
+    }
+    hunt::<ScancodeSet2>(out);
+    hunt::<ScancodeSet1>(out);
+}
+
 fn act_op(a: &BitAct) -> Op {
     match a {
         BitAct::Bit(b) => Op::Bit(*b),
@@ -265,6 +300,7 @@ pub fn worker(tier: &str, result_path: &str) -> i32 {
     scan_graph::<Keyboard<Echo, ScancodeSet2>>(&mut out);
     scan_graph::<Keyboard<Echo, ScancodeSet1>>(&mut out);
     frame_graph(&mut out);
+    stream_hunts(&mut out);
     kb_words::<ScancodeSet2>(&mut out);
     kb_words::<ScancodeSet1>(&mut out);
     ev_graph(&mut out);
